@@ -76,6 +76,7 @@ type Exec struct {
 	nimm          int
 	beforeSeen    map[string]bool
 	siteOrd       map[string][]token.Pos
+	recoverNoted  bool
 	nonNilPending []nonNilWrite
 	ownWrites     []nonNilWrite // stores made by the function's own statements (checked against the declared frame under assumed_frame)
 	overflow      bool      // contract option: machine-integer overflow of + - * is an obligation
